@@ -11,6 +11,7 @@ sys.path.insert(0, os.path.dirname(HERE))
 import common  # noqa: E402
 import shroudrun  # noqa: E402
 from rt import cases as K, cgen  # noqa: E402
+from rt.cgen import px  # noqa: E402
 
 VT_IFACE = """
   interface
@@ -115,9 +116,11 @@ def gen_f_driver(cases, nvals, with_class):
                             Ln = [10, max(1, len(raw)) + 2, 6, 12][vi % 4]
                         else:
                             Ln = 12 if vi % 2 == 0 else max(1, len(raw))
-                    blk.append("    " + ffmt(fr["decl"], n=p["name"], L=Ln))
-                    sets.append("    " + ffmt(fr["set"], n=p["name"], v=fv))
+                    rc_ = [(3, 2), (1, 4), (2, 2), (4, 1)][vi % 4]
+                    blk.append("    " + ffmt(fr["decl"], n=p["name"], L=Ln, r=rc_[0], c=rc_[1]))
+                    sets.append("    " + ffmt(fr["set"], n=p["name"], v=fv, r=rc_[0], c=rc_[1], **px(p)))
                 sz = [4, 0, 1, 3][vi % 4]
+                rc = [(3, 2), (1, 4), (2, 2), (4, 1)][vi % 4]
                 fx, rr = fres(c, tt)
                 if "decl" in fx:
                     blk.append("    " + fx["decl"])
@@ -128,9 +131,9 @@ def gen_f_driver(cases, nvals, with_class):
                 for p in c["params"][:nsup]:
                     fr, r = frow(p, tt)
                     if fr.get("fin") and fr.get("arg") is not None:
-                        blk.append("    " + ffmt(fr["fin"], n=p["name"], m=p.get("m", ""), sz=sz))
+                        blk.append("    " + ffmt(fr["fin"], n=p["name"], **px(p), sz=sz))
                 blk.append("    call vt_end()")
-                args = ", ".join(ffmt(frow(p, tt)[0]["arg"], n=p["name"], m=p.get("m", ""), sz=sz)
+                args = ", ".join(ffmt(frow(p, tt)[0]["arg"], n=p["name"], **px(p), sz=sz)
                                  for p in c["params"][:nsup] if frow(p, tt)[0].get("arg") is not None)
                 if fx.get("ptr"):
                     blk.append("    rv => %s(%s)" % (name, args))
@@ -145,7 +148,7 @@ def gen_f_driver(cases, nvals, with_class):
                 for p in c["params"][:nsup]:
                     fr, r = frow(p, tt)
                     if fr.get("fout"):
-                        blk.append("    " + ffmt(fr["fout"], n=p["name"], m=p.get("m", ""), sz=sz))
+                        blk.append("    " + ffmt(fr["fout"], n=p["name"], **px(p), sz=sz))
                 blk.append("    call vt_end()")
                 blk.append("  end block")
                 body += blk
